@@ -24,11 +24,15 @@ RULES = {
                "tuples, so the maximum over legs is reported, not the sum.",
     "buildmatrix": "the same run seeds executed by one binary per build configuration; evaluations = runs x configurations, "
                    "distinct_nontrivial = number of distinct per-run event-log digests that were compared across all configurations",
+    "abyss": "engine abyss: one child process per run builds a seeded chain of 12000..70000 (thorough: ..250000) levels on a thread with a "
+             "2 MiB stack and executes a seeded probe list against bookkeeping expectations; its tuples (probe kind, outcome, log2 depth) "
+             "are counted separately in legs[].distinct_nontrivial",
     "threadsim": "distinct_nontrivial = number of distinct (arena history seed, per-thread read lists) scenarios executed "
                  "under shuttle schedules, plus Miri seeds; evaluations = schedules executed",
 }
 ASSUME = [
-    "seeded sampling, not proof: a clean batch is evidence only (bounds: <= 1300 live nodes, <= 4000 ops per run, <= 150000 recycles per op)",
+    "seeded sampling, not proof: a clean batch is evidence only (bounds: <= 1300 live nodes, <= 4000 ops per run, <= 150000 recycles per op; "
+    "engine abyss (C03, C05, C07 only): one chain of <= 70000 levels (thorough: 250000) and <= 15 probes per run, unoptimised and release builds, 2 MiB stack)",
     "valid-call rule of DESIGN.md 3.1: detach/remove/remove_subtree/payload writes/reads get live ids only; insert entry points and "
     "append_value may also get removed-not-yet-recycled ids; stale ids go to NodeId::is_removed only",
     "reference model (sim/src/model.rs) is trusted as the statement of the documented behaviour; free-slot order, error variant names, "
